@@ -14,3 +14,14 @@ CHECKS["C01"] = {
          "stateful Python with I/O-like calls; the defects live in particular short histories and schedules, which exhaustive bounded "
          "enumeration reaches and a test suite samples.",
  "technique": "bounded exhaustive exploration; user operations and schedule slots are z3 integer choices enumerated by solver-decided branching over the real engine; concrete replay"}
+CHECKS["C18"] = {
+ "text": "Bounded symbolic verification (M1) of the real Runnable.run loop and NotificationManager: backoff parameters are z3 reals, every outcome "
+         "sequence of length 4 (6) over {did something, nothing happened, backoff(), Exception, BaseException} is enumerated by the solver, and each "
+         "requested sleep is proved equal to min(max, min*mult^(k-1)) by a nonlinear real validity query; stop point/finality and handler failures "
+         "are solver choices. Cross-thread races of stop/wake/start are outside this technique and not claimed.",
+ "technique": "bounded symbolic execution of Runnable.run with z3 reals for min/max/mult (QF_NRA validity per path), solver-enumerated outcome/stop/handler-failure choices; exact-fraction replay"}
+CHECKS["C17"] = {
+ "text": "Bounded symbolic verification (M1) of the real SyncState.update/mark_changed/change/punt with every clock read a fresh z3 real, ageing a z3 real "
+         "and priorities z3 integers: eligibility, (priority, time) minimality, None-iff-nothing-eligible, punt arithmetic, bounded delay, strictly "
+         "increasing change times are validity queries on every path (2-3 entries); plus engine-level first-write-vs-ageing on the virtual clock (M2).",
+ "technique": "bounded symbolic execution of SyncState scheduling code under a symbolic non-decreasing clock (z3 LRA/LIA validity per path); solver-enumerated engine schedules for the ageing law"}
